@@ -64,6 +64,21 @@ EMPHASIS = {
           "to the field width, trailing blanks, CRLF line ends, blank lines where the format allows them, optional trailing "
           "sections, values in a different but legal Fortran rendering. The change itself must still look like a plausible "
           "maintainer edit, and the failing input must be inside the quantified domain. "),
+    '9': ("Your opponent generates thousands of inputs per property, compares with an independent re-implementation, replays "
+          "call and editing histories (also across two live objects and after refused calls), and has seen eight rounds of "
+          "ideas. PREFER: (i) SIZE EXTREMES: empty things (no blocks, no connections, no generators, a table with no rows, one "
+          "result time, one column, one layer), exactly one element, and sizes where a vectorised or chunked shortcut differs "
+          "(exactly a multiple of a chunk, 10^3..10^4 items); (ii) ORDER as part of the contract: results that come back in "
+          "another order, sets or dictionaries iterated where a list order is promised, sorting that is not stable, names that "
+          "sort differently as text and as numbers; (iii) COPIES: an object that has been through copy.copy / copy.deepcopy / "
+          "pickle, `+`, slicing or a 'from another object' constructor must behave like the original - and the original must "
+          "not change when the copy does; (iv) rarely used OPTIONAL PARAMETERS of the very methods the property is about "
+          "(documented keyword arguments whose default path is well trodden but whose other values are not); (v) numerically "
+          "DELICATE code: a rewrite that changes the last digits only, so that a threshold, tie-break, or `==` between two "
+          "computed numbers flips for a few inputs; accumulated round-off over many items; angles near 0/90/180/360 degrees; "
+          "(vi) the OUTPUT SIDE of a conversion: what is written rather than what is returned (column alignment of a field that "
+          "parsers skip, trailing blanks, the last line, a header count that no longer matches the body). The change itself must "
+          "still look like a plausible maintainer edit, and the failing input must be inside the quantified domain. "),
 }[rnd]
 props = [json.loads(l) for l in open('/verif/properties.jsonl')]
 for p in props:
